@@ -138,16 +138,17 @@ func GenSpec(p Property, verifSeed uint64, tier string, idx int) Spec {
 
 // RandomSimConfig is the swarm of scheduler configurations shared by the properties.
 func RandomSimConfig(r *rand.Rand) sim.Config {
-	c := sim.Config{Workers: 1 + r.IntN(4), ShuffleMaps: r.IntN(4) != 0, MaxSteps: 600000}
+	c := sim.Config{Workers: 1 + r.IntN(4), ShuffleMaps: r.IntN(4) != 0, MaxSteps: 600000, IdleLimitSec: 300}
 	switch r.IntN(4) {
 	case 0:
 		c.Strategy = "random"
 	case 1:
 		c.Strategy = "sticky"
-		c.StickyP = []float64{0.5, 0.9, 0.98}[r.IntN(3)]
+		c.StickyP = []float64{0.5, 0.9, 0.98, 0.997}[r.IntN(4)]
 	case 2:
 		c.Strategy = "pct"
 		c.PCTDepth = 1 + r.IntN(3)
+		c.PCTHorizon = []int{200, 600, 2000, 6000}[r.IntN(4)]
 	default:
 		c.Strategy = "random"
 	}
@@ -249,19 +250,27 @@ func crashSig(c sim.Crash) string {
 	if len(val) > 80 {
 		val = val[:80]
 	}
-	frame := ""
+	frame, outer := "", ""
 	for _, ln := range strings.Split(c.Stack, "\n") {
 		ln = strings.TrimSpace(ln)
 		if strings.HasPrefix(ln, "github.com/semafind/semadb/") && !strings.Contains(ln, "zzsimrt") {
-			frame = ln
-			if i := strings.LastIndex(frame, "("); i > 0 {
-				frame = frame[:i]
+			f := ln
+			if i := strings.LastIndex(f, "("); i > 0 {
+				f = f[:i]
 			}
-			frame = strings.TrimPrefix(frame, "github.com/semafind/semadb/")
-			break
+			f = strings.TrimPrefix(f, "github.com/semafind/semadb/")
+			if j := strings.Index(f, ".func"); j > 0 {
+				f = f[:j] // closures: name of the enclosing function
+			}
+			if frame == "" {
+				frame = f
+			}
+			outer = f
 		}
 	}
-	return val + "@" + frame
+	// innermost and outermost semadb frame of the crashing goroutine: tells a crash
+	// in a search task from a crash in a write pipeline goroutine
+	return val + "@" + frame + " via " + outer
 }
 
 func stripDigits(s string) string {
